@@ -574,7 +574,7 @@ def outlier_text(rng):
         n = rng.choice([300, 1000, 5000])
         return "x = '" + 'a' * n + "'\ny = 1\n" + 'z = ' + ' + '.join('v%d' % i for i in range(rng.choice([50, 400]))) + '\n'
     if k == 1:
-        d = rng.choice([12, 25, 60])
+        d = rng.choice([12, 60, 150])
         out = []
         for i in range(d):
             out.append('    ' * i + rng.choice(['if x%d:', 'for i%d in y:', 'while z%d:', 'with w%d:', 'def f%d():', 'class C%d:']) % i + '\n')
@@ -583,7 +583,7 @@ def outlier_text(rng):
             out.append('    ' * i + 'x%d = %d\n' % (i, i))
         return ''.join(out)
     if k == 2:
-        d = rng.choice([20, 60, 150])
+        d = rng.choice([20, 150, 300])
         return 'x = ' + '(' * d + '1' + ')' * d + '\ny = ' + '[' * d + ']' * d + '\nz = 2\n'
     if k == 3:
         n = rng.choice([300, 1000, 2500])
